@@ -208,7 +208,13 @@ class Register:
         step = resolve_annotated_value(step)
         stop = resolve_annotated_value(stop)
 
-        return len(range(start, stop, step))
+        if step == 0:
+            raise JaqalError("Slice step cannot be zero.")
+        # The number of elements of range(start, stop, step), computed
+        # without len(), which overflows for bounds beyond the machine word.
+        if step > 0:
+            return max(0, (stop - start + step - 1) // step)
+        return max(0, (start - stop - step - 1) // -step)
 
     def resolve_qubit(self, idx, context=None):
         """
@@ -248,6 +254,8 @@ class Register:
         return alias_from.resolve_qubit(start + idx * step, context)
 
     def __getitem__(self, key):
+        if isinstance(key, int) and key < 0:
+            raise JaqalError("Index out of range.")
         name = make_item_name(self, key)
         if isinstance(key, slice):
             raise JaqalError(
